@@ -305,7 +305,8 @@ def c04_gpg(ctx, r, n_manifests, n_mut):
                         res = ['ok', [impl.entry_sx(e) for e in m.entries], bool(m.openpgp_signed)]
                     except Exception as e:
                         res = impl.exc_sx(e)
-                    grc, status, clear = h.verify(t)
+                    # (gpg is shown the text as the text layer presents it to gemato: universal newlines, a lone CR ends a line)
+                    grc, status, clear = h.verify(t.replace('\r\n', '\n').replace('\r', '\n'))
                     good = grc == 0 and any(l.startswith(b'[GNUPG:] GOODSIG') for l in status)
                     if res[0] == 'ok' and res[2]:
                         acc += 1
